@@ -239,19 +239,21 @@ func (wp *workerProc) ask(cmd, kind string, timeout time.Duration) ([]string, bo
 // clients
 
 type lifeClient struct {
-	mu        sync.Mutex
-	raw       net.Conn
-	rw        io.ReadWriter // raw or the TLS connection after an upgrade
-	tlsConn   *tls.Conn
-	eof       bool
-	stalled   bool
-	upgrading bool // a TLS handshake owns the socket: the reader must stay away
-	parked    bool
-	closedBy  bool // the scenario closed it from the client side
-	recv      int
-	stream    []byte // bytes read and not yet parsed into whole LDAPMessages
-	frames    int    // whole LDAPMessages received
-	cond      *sync.Cond
+	mu          sync.Mutex
+	raw         net.Conn
+	rw          io.ReadWriter // raw or the TLS connection after an upgrade
+	tlsConn     *tls.Conn
+	eof         bool
+	stalled     bool
+	upgrading   bool // a TLS handshake owns the socket: the reader must stay away
+	parked      bool
+	closedBy    bool // the scenario closed it from the client side
+	recv        int
+	stream      []byte // bytes read and not yet parsed into whole LDAPMessages
+	frames      int    // whole LDAPMessages received
+	everStalled bool
+	bulk        bool // a handler on this connection writes until it blocks: the count is not predicted
+	cond        *sync.Cond
 }
 
 func (c *lifeClient) reader() {
@@ -310,12 +312,13 @@ func (c *lifeClient) park() {
 }
 
 type lifeRun struct {
-	wp       *workerProc
-	clients  []*lifeClient
-	msgConn  map[int64]int // message id -> client index
-	nextMsg  int64
-	runState string
-	cliTLS   *tls.Config
+	wp         *workerProc
+	clients    []*lifeClient
+	msgConn    map[int64]int // message id -> client index
+	nextMsg    int64
+	runState   string
+	cliTLS     *tls.Config
+	stopCalled bool
 }
 
 func (lr *lifeRun) execOp(t *Toks) error {
@@ -326,6 +329,7 @@ func (lr *lifeRun) execOp(t *Toks) error {
 		t.Bool()
 		lr.wp.send("run")
 	case "stop":
+		lr.stopCalled = true
 		lr.wp.send("stop")
 	case "connect":
 		c, err := net.DialTimeout("tcp", lr.wp.addr, 3*time.Second)
@@ -406,6 +410,13 @@ func (lr *lifeRun) execOp(t *Toks) error {
 					return fmt.Errorf("worker not answering")
 				}
 				lr.msgConn[msgid] = ci
+				for _, st := range steps {
+					if st == "W" && ci < len(lr.clients) {
+						lr.clients[ci].mu.Lock()
+						lr.clients[ci].bulk = true
+						lr.clients[ci].mu.Unlock()
+					}
+				}
 				var q *TReq
 				switch kind {
 				case "normal":
@@ -463,6 +474,9 @@ func (lr *lifeRun) execOp(t *Toks) error {
 		lc := lr.clients[ci]
 		lc.mu.Lock()
 		lc.stalled = b
+		if b {
+			lc.everStalled = true
+		}
 		lc.cond.Broadcast()
 		lc.mu.Unlock()
 	case "release":
@@ -576,11 +590,21 @@ func normaliseSnap(s string, lr *lifeRun) string {
 	f := strings.Fields(s)
 	for i, p := range f {
 		if strings.HasPrefix(p, "c") && strings.Contains(p, ":id=") {
-			// the number of frames the client received is not predicted by the model
-			// (it is judged by the spec predicate): not part of the comparison
+			// frames received: compared with the model's count of frames sent, except where
+			// the count is not determined (client not reading or gone, bulk writer, after Stop:
+			// whether the notice of disconnection still gets out is a race)
 			if j := strings.Index(p, ",rx="); j >= 0 {
-				p = p[:j]
-				f[i] = p
+				idx, _ := strconv.Atoi(p[1:strings.Index(p, ":")])
+				wild := lr.stopCalled
+				if idx < len(lr.clients) {
+					lr.clients[idx].mu.Lock()
+					wild = wild || lr.clients[idx].closedBy || lr.clients[idx].stalled || lr.clients[idx].bulk || lr.clients[idx].everStalled
+					lr.clients[idx].mu.Unlock()
+				}
+				if wild {
+					p = p[:j] + ",rx=x"
+					f[i] = p
+				}
 			}
 			idx, _ := strconv.Atoi(p[1:strings.Index(p, ":")])
 			if idx < len(lr.clients) {
